@@ -57,6 +57,11 @@ var FormatDateFunc = function.New(&function.Spec{
 					for i := 0; i < len(raw); i++ {
 						buf.WriteByte(raw[i])
 						if raw[i] == esc {
+							if i+1 >= len(raw) {
+								// The quote at the end of the token is the second
+								// half of this escape, so the literal was never closed.
+								return cty.DynamicVal, function.NewArgErrorf(0, "unterminated literal '")
+							}
 							i++ // skip the escaped quote
 						}
 					}
